@@ -19,47 +19,61 @@
   Programs `P : Nat → Body` are arbitrary well-formed resumption programs (dynamic dependencies),
   durabilities are arbitrary.  `Inv` is the engine invariant of Proofs/CoreInv.lean.
 
-  What is proved, and for which fragment:
-    * unconditionally (arbitrary `pers`, flattening included): what a snapshot keeps
-      (`c26_snapshot_keeps`), that a serialized memo mentions only inputs and persisted functions
-      (`c26_flatten_persisted`), and that a persisted memo verified in the snapshot's revision —
-      or passing the durability shortcut — is answered on the restored database from the memo,
-      with no `WillExecute` (`c26_no_exec_when_unchanged`, `c26_no_exec_when_durable`);
-    * flattening, semantically, for QUIESCENT snapshots (every memo verified in the current
-      revision — a database serialized right after its results were requested, as in salsa's
-      own tests): the flattened edges of a serialized memo determine its value — the "Covers"
-      clause of DESIGN.md §C26 for `collect_minimum_serialized_edges` including its `visited` /
-      already-serialized shortcuts (`c26_flatten_covers`, `c26_flatten_covers_reachable`);
-    * for snapshots that need NO FLATTENING (`NoFlat pers s`: every dependency of a persisted
-      memo is an input or a persisted function; statically: `Closed pers P`, decidable on
-      line-protocol programs as `closedList`) — the theorems named `_partial`:
-      `c26_restore_inv_partial`, `c26_same_results_partial`, `c26_after_history_partial`,
-      `c26_sound_partial`, `c26_sound_history_partial`, `c26_sound_prog_partial`;
-    * as the instance "every function is persisted" these give the full property for every
-      well-formed program with no side condition (`c26_sound_all_persisted`).
+  What is proved:
+    * THE FULL PROPERTY, for ARBITRARY `pers` (flattening through non-persisted functions
+      included), arbitrary well-formed programs, arbitrary durabilities and snapshots taken in
+      ARBITRARY states (quiescent or not, stale persisted memos included):
+        `c26_restore_inv`   InvF pers P s → InvF pers P (restore (snapshot pers s))
+        `c26_same_results`  InvF pers P s → ∀ q, (fetchP P (restore (snapshot pers s)) q).2.val = sem P s.inp q
+        `c26_after_history` InvF pers P s → after any history from the restored database every
+                            request returns the from-scratch value
+        `c26_sound`, `c26_sound_history`, `c26_sound_prog` — histories with snapshots anywhere, no
+                            side condition on `pers` (no `NoFlat` / `Closed`)
+      `InvF` (Proofs/PersistFlat8.lean) is the engine invariant `J` of Proofs/PersistFlat2.lean for
+      some ghost input history; it holds in every state reached from a fresh database
+      (`c26_invF_reachable`).  `J` replaces clause I1 of the S2 invariant (replay of the direct read
+      sequence, false after flattening) by semantic, temporal clauses: values and durabilities of
+      the memos reachable under the anchor `verified_at` (only at anchors — on whole intervals
+      "unchanged since changed_at" is false because of backdating, A→B→A), constancy of the input
+      leaves on `[deepAt, verified_at]`, a frontier bound on `changed_at`, and Covers: if no leaf
+      input edge and no function edge has a stamp after the anchor (or the memo was verified after
+      the last restore) then the edges cut every evaluation path under the anchor.  The scenario
+      "a STALE persisted memo is serialized with the CURRENT edges of a re-executed non-persisted
+      dependency" (`P = N`, `N = i0`, write `i0`, request `N` only) is sound: the re-executed
+      dependency read the changed input again, so the flattened list contains a leaf whose stamp
+      exceeds the stale memo's `verified_at`; the premise of Covers fails, deep verification on the
+      restored database fails, the memo is re-executed (`restore_cut` in Proofs/PersistFlat7f.lean
+      is the precise statement; 620 000 random model histories found no violation either).
+      The key step of the S2 proof — "re-execution reads the first changed edge, so the new
+      `changed_at` exceeds every reader's `verified_at`" — is FALSE with flattening (a persisted
+      function between the memo and the changed leaf may be re-executed and backdated); it is
+      replaced by comparing the evaluation under a reader's anchor with the present one dependency
+      by dependency (`exec_same`, Proofs/PersistFlat4b.lean).
+    * unconditionally: what a snapshot keeps (`c26_snapshot_keeps`), that a serialized memo
+      mentions only inputs and persisted functions (`c26_flatten_persisted`), and that a persisted
+      memo verified in the snapshot's revision — or passing the durability shortcut — is
+      answered on the restored database from the memo, with no `WillExecute`
+      (`c26_no_exec_when_unchanged`, `c26_no_exec_when_durable`);
+    * Covers in its static form for QUIESCENT snapshots (`c26_flatten_covers`,
+      `c26_flatten_covers_reachable`), and in its general form for arbitrary states
+      (`c26_flatten_cut`);
+    * the earlier results for snapshots that need NO FLATTENING, with the S2 invariant `Inv`, are
+      kept under their names `…_partial` (`c26_restore_inv_partial`, `c26_same_results_partial`,
+      `c26_after_history_partial`, `c26_sound_partial`, `c26_sound_history_partial`,
+      `c26_sound_prog_partial`, `c26_sound_all_persisted`).
 
-  NOT YET PROVED (flattening through non-persisted functions; tied to salsa only by the
-  correspondence run `vh persist` ⇄ `svdriver persist`, which exercises it on every case):
-    theorem c26_restore_inv : Wf P → Inv' P s → Inv' P (restore (snapshot pers s))
-    theorem c26_same_results : Wf P → Inv' P s → ∀ q, (fetchP P (restore (snapshot pers s)) q).2.val = sem P s.inp q
-    theorem c26_after_history : Wf P → ∀ inp ops q, (fetchP P (runP pers P inp ops) q).2.val = sem P (runP pers P inp ops).inp q
-  for arbitrary `pers`, where `Inv'` is `Inv` with clause I1 (`replay (P q) obs = value`, stated
-  for the direct read sequence) replaced by the semantic clause of DESIGN.md §C26
-    Covers: (∀ o ∈ obs p, stamp o ≤ p.va) → p.value = sem P s.inp q
-  (proved below for quiescent states as `c26_flatten_covers`; in general it must be conditional
-  on the stamps: a stale persisted memo is serialized with the CURRENT edges of a
-  non-persisted dependency that may have been re-executed since — `P = N`, `N = i0`, write `i0`,
-  request `N` only — so the flattened leaves of `P` do not determine `P`'s old value), plus a
-  bound `p.ca ≤ max stamp over obs p` for the dropped memos, which the S2 invariant does not
-  carry; and `run_prefix` re-proved for flattened leaves ("re-execution reaches the first changed
-  leaf", flattening order = execution order).
+  NOT YET PROVED: nothing of the statement of C26 for this model.  (Outside the model, tied to
+  salsa only by the correspondence run `vh persist` ⇄ `svdriver persist`: tracked structs,
+  interned values, cycles, accumulators under persistence.)
 -/
 import SalsaVerif.Model.Persist
 import SalsaVerif.Proofs.Persist
 import SalsaVerif.Proofs.PersistRec
+import SalsaVerif.Proofs.PersistFlat8
 
 namespace SalsaVerif.Props.C26
 open SalsaVerif.Model.Core SalsaVerif.Model.Persist SalsaVerif.Proofs.Core SalsaVerif.Proofs.Persist
+open SalsaVerif.Proofs.PersistFlat (InvF J Cut)
 
 /-! ### examples used for non-vacuity
 
@@ -265,5 +279,99 @@ where
     | .read d k => ClosedB.read d k (fun _ _ => rfl) (fun v => closedAll (k v))
 
 example : wfList 0 exFlat = true := by decide
+
+/-! ### the full property: arbitrary `pers`, flattening included, snapshots in arbitrary states -/
+
+/-- a program whose persisted query q2 = q1 reads the NON-persisted q1 = i0 (the scenario of the
+    header: a stale persisted memo serialized with the current edges of a re-executed dependency) -/
+def exStale : List Expr := [.const 0, .inp 0, .qry 1]
+
+example : wfList 0 exStale = true := by decide
+example : closedList evenPers 0 exStale = false := by decide
+
+/-- **The invariant `InvF` holds in every reachable state**: fresh database, then any history of
+    requests, writes (any durabilities), synthetic writes and snapshots, for ANY set `pers` of
+    persisted functions. -/
+theorem c26_invF_reachable {P : Nat → Body} (hP : Wf P) (pers : Nat → Bool) (inp : Nat → Inp)
+    (ops : List POp) : InvF pers P (runP pers P inp ops) :=
+  SalsaVerif.Proofs.PersistFlat.runP_invF hP inp ops
+
+/-- **The restored database satisfies the engine invariant** — for arbitrary `pers` (edges on
+    non-persisted functions are replaced by the flattened edges of their memos) and an arbitrary
+    state `s` of the invariant (stale memos allowed). -/
+theorem c26_restore_inv {P : Nat → Body} (hP : Wf P) (pers : Nat → Bool) (s : State)
+    (hI : InvF pers P s) : InvF pers P (restore (snapshot pers s)) :=
+  SalsaVerif.Proofs.PersistFlat.stepP_invF hP s .snapshot hI
+
+/-- **Same results**: every request on the restored database — of a persisted function or not —
+    returns the from-scratch value over the inputs of the serialized database. -/
+theorem c26_same_results {P : Nat → Body} (hP : Wf P) (pers : Nat → Bool) (s : State)
+    (hI : InvF pers P s) (q : Nat) :
+    (fetchP P (restore (snapshot pers s)) q).2.val = sem P s.inp q :=
+  (SalsaVerif.Proofs.PersistFlat.fetch_soundF hP _ q (c26_restore_inv hP pers s hI)).2.1
+
+/-- **After any subsequent history** of requests, writes with arbitrary durabilities, synthetic
+    writes and further snapshots, every request returns the from-scratch value over the current
+    inputs. -/
+theorem c26_after_history {P : Nat → Body} (hP : Wf P) (pers : Nat → Bool) (s : State)
+    (hI : InvF pers P s) (ops : List POp) (q : Nat) :
+    (fetchP P (ops.foldl (stepP pers P) (restore (snapshot pers s))) q).2.val =
+      sem P (ops.foldl (stepP pers P) (restore (snapshot pers s))).inp q :=
+  (SalsaVerif.Proofs.PersistFlat.fetch_soundF hP _ q
+    (SalsaVerif.Proofs.PersistFlat.foldlP_invF hP ops _ (c26_restore_inv hP pers s hI))).2.1
+
+/-- **Soundness of histories with snapshots anywhere** — no side condition on `pers`. -/
+theorem c26_sound {P : Nat → Body} (hP : Wf P) (pers : Nat → Bool) (inp : Nat → Inp) (ops : List POp)
+    (q : Nat) : (fetchP P (runP pers P inp ops) q).2.val = sem P (runP pers P inp ops).inp q :=
+  (SalsaVerif.Proofs.PersistFlat.fetch_soundF hP _ q (c26_invF_reachable hP pers inp ops)).2.1
+
+/-- The same for every `get` inside the history: the answers equal those of the from-scratch
+    oracle `refOutputsP`, for which a snapshot is a no-op. -/
+theorem c26_sound_history {P : Nat → Body} (hP : Wf P) (pers : Nat → Bool) (inp : Nat → Inp)
+    (ops : List POp) : outputsP pers P (init inp) ops = refOutputsP P (envOf inp) ops := by
+  rw [SalsaVerif.Proofs.PersistFlat.outputsP_refF hP ops (init inp)
+    (SalsaVerif.Proofs.PersistFlat.init_invF pers P inp)]
+  rfl
+
+/-- Line-protocol programs: well-formedness is the only (decidable) hypothesis. -/
+theorem c26_sound_prog (pers : Nat → Bool) (es : List Expr) (hw : wfList 0 es = true)
+    (inp : Nat → Inp) (ops : List POp) :
+    outputsP pers (progOf es) (init inp) ops = refOutputsP (progOf es) (envOf inp) ops :=
+  c26_sound_history (wf_progOf es hw) pers inp ops
+
+/-- **Covers, general form** (any state of the invariant, stale memos included).  Flatten the edges
+    of the memo `m` of `q` as the serializer does.  If no flattened input edge that is a leaf of the
+    evaluation under the memo's anchor `H m.va`, and no flattened function edge, has been changed
+    after `m.va`, then the flattened edges cut every evaluation path of `q` under `H m.va`: every
+    input read above the listed functions is listed.  (Otherwise deep verification on the restored
+    database fails and the memo is re-executed.) -/
+theorem c26_flatten_cut {P : Nat → Body} (hP : Wf P) (pers : Nat → Bool) (H : Nat → Nat → Inp) (R0 : Nat)
+    (s : State) (hJ : J pers P H R0 s) (hR : AllRec s) (q : Nat) (m : Memo) (hm : s.memos q = some m)
+    (fi : ∀ i, Dep.inp i ∈ (flattenObs pers s m.obs).map (·.dep) →
+      SalsaVerif.Proofs.PersistFlat.Leaf P (H m.va) q i → (s.inp i).ca ≤ m.va)
+    (ff : ∀ p mp, Dep.qry p ∈ (flattenObs pers s m.obs).map (·.dep) → s.memos p = some mp → mp.ca ≤ m.va) :
+    Cut P (H m.va) ((flattenObs pers s m.obs).map (·.dep)) q :=
+  SalsaVerif.Proofs.PersistFlat.restore_cut hP hJ hR hm fi ff
+
+-- non-vacuity.  The hypotheses `InvF …` are met by every reachable state (`c26_invF_reachable`),
+-- in particular by states that need flattening and by the stale state of the header's scenario:
+example : InvF evenPers (progOf exFlat) (runP evenPers (progOf exFlat) (fun _ => ⟨1, 1, 0⟩) [.get 2]) :=
+  c26_invF_reachable (wf_progOf exFlat (by decide)) evenPers _ _
+example : InvF evenPers (progOf exStale)
+    (runP evenPers (progOf exStale) (fun _ => ⟨1, 1, 0⟩) [.get 2, .set 0 3 none, .get 1]) :=
+  c26_invF_reachable (wf_progOf exStale (by decide)) evenPers _ _
+-- … in that state q2's memo is stale (verified in R1, the current revision is R2) and the
+-- snapshot stores it with the CURRENT edge of the re-executed q1 (input 0 with its new value 3):
+example : ((runP evenPers (progOf exStale) (fun _ => ⟨1, 1, 0⟩) [.get 2, .set 0 3 none, .get 1, .snapshot]).memos 2).map
+    (fun m => (m.value, m.va, m.obs)) = some (1, 1, [⟨.inp 0, 3, true⟩]) := by decide
+-- … and the restored database re-executes q2 (and q1, whose memo was dropped) and answers 3:
+example : outputsP evenPers (progOf exStale) (init fun _ => ⟨1, 1, 0⟩)
+    [.get 2, .set 0 3 none, .get 1, .snapshot, .get 2] = [1, 3, 3] := by decide
+example : (fetchP (progOf exStale) (runP evenPers (progOf exStale) (fun _ => ⟨1, 1, 0⟩)
+    [.get 2, .set 0 3 none, .get 1, .snapshot]) 2).1.trace = [.exec 2, .exec 1] := by decide
+-- a history on the flattening example with snapshots in stale states and durability changes
+example : outputsP evenPers (progOf exFlat) (init fun _ => ⟨1, 1, 0⟩)
+    [.get 2, .set 2 3 none, .get 1, .snapshot, .get 2, .set 0 2 (some 2), .snapshot, .get 2, .synth 1, .get 2]
+    = [0, 1, 2, 0, 0] := by decide
 
 end SalsaVerif.Props.C26
